@@ -171,7 +171,9 @@ Record case := mk {
   c_check_failed : bool;                 (* `restic check --read-data` exit status != 0 *)
   c_classes : list N;                    (* classes of the errors the checker stages returned *)
   c_loads : list (id * N);               (* LoadBlob per needed blob: 0 original bytes, 1 error, 2 other bytes *)
-  c_restores : list (id * (bool * bool)) (* restore per snapshot: (exit status ok, all files identical) *)
+  c_restores : list (id * (bool * bool)); (* restore per snapshot: (exit status ok, all files identical) *)
+  c_reads : list (list id * N)           (* mounted-file reads (fuse openFile.Read) spanning these blobs:
+                                            0 all requested bytes, original; 1 error; 2 success with other or fewer bytes *)
 }.
 
 Fixpoint find_snap (l : list snap) (s : id) : option snap :=
@@ -181,7 +183,8 @@ Definition clause_reported (c : case) : bool :=
   if wf_tamper (c_repo c) (c_t c) && must_report (c_repo c) (c_t c) then c_check_failed c else true.
 Definition clause_no_wrong_bytes (c : case) : bool :=
   forallb (fun x => negb (snd x =? 2)) (c_loads c) &&
-  forallb (fun x => implb (fst (snd x)) (snd (snd x))) (c_restores c).
+  forallb (fun x => implb (fst (snd x)) (snd (snd x))) (c_restores c) &&
+  forallb (fun x => negb (snd x =? 2)) (c_reads c).
 Definition check_C03 (c : case) : bool := clause_reported c && clause_no_wrong_bytes c.
 
 Definition bool_eqb (a b : bool) : bool := if a then b else negb b.
@@ -195,9 +198,16 @@ Definition model_restores_agree (c : case) : bool :=
                     | None => false
                     end) (c_restores c).
 
+(* a read of a mounted file succeeds iff the file can be opened and every blob it spans can be loaded *)
+Definition read_ok (R : repo) (t : tamper) (bs : list id) : bool :=
+  negb (t_open_bad t) && match index_errs R t with [] => true | _ => false end && forallb (loadable R t) bs.
+Definition model_reads_agree (c : case) : bool :=
+  forallb (fun x => bool_eqb (snd x =? 0) (read_ok (c_repo c) (c_t c) (fst x)) || (snd x =? 2)) (c_reads c).
+
 (* codes: 0 ok; 1 model <> implementation (check verdict without tampering obligation, error classes,
    which blobs load, which restores succeed); 2 tampering of needed data not reported by check;
-   3 wrong bytes delivered (LoadBlob returned other bytes / restore succeeded with different content) *)
+   3 wrong bytes delivered (LoadBlob returned other bytes / restore succeeded with different content /
+   a mounted-file read succeeded with other or fewer bytes) *)
 Definition check_case (c : case) : nat :=
   if negb (clause_reported c) then 2%nat
   else if negb (clause_no_wrong_bytes c) then 3%nat
@@ -206,6 +216,7 @@ Definition check_case (c : case) : nat :=
   else if negb (set_eqb_n (c_classes c) (map cls (check (c_repo c) (c_t c)))) then 1%nat
   else if negb (model_loads_agree c) then 1%nat
   else if negb (model_restores_agree c) then 1%nat
+  else if negb (model_reads_agree c) then 1%nat
   else 0%nat.
 
 End C03m.
